@@ -96,6 +96,9 @@ fn parent(args: &Args) {
     }
     let ends = run::run_children(args, &spec, &mut out);
     run::classify_ends(&ends, &mut out, true);
+    // concurrent first formatting of ever longer thread names (process-wide width)
+    let ends = run::run_children(args, &ChildSpec::new("all", args.get_u64("names", args.tier.pick(16, 64))).arg("part", "names").timeout(600), &mut out);
+    run::classify_ends(&ends, &mut out, true);
     // one-shot scenarios that need the fmt collector as the global default
     let ends = run::run_children(args, &ChildSpec::new("all", args.get_u64("nested", 8)).arg("part", "nested").timeout(120), &mut out);
     run::classify_ends(&ends, &mut out, true);
@@ -179,6 +182,11 @@ fn child(args: &Args) {
     }
     if args.get("part") == Some("nested") {
         nested_events_under_a_global_default(&mut out);
+        out.emit();
+        return;
+    }
+    if args.get("part") == Some("names") {
+        child_names(args, &mut out);
         out.emit();
         return;
     }
@@ -421,6 +429,128 @@ fn nested_events_under_a_global_default(out: &mut Out) {
     out.evals += 4;
     if let Some(p) = problems.first() {
         out.violation(format!("nested events under a global fmt default: {p}"), json!({"part": "nested", "problems": problems}));
+    }
+}
+
+/// Rounds of eight named threads that format one event each at the same moment, with thread
+/// names on; in every round every name is longer than any name the process has formatted so
+/// far and the eight lengths differ, so all of them update the formatter's process-wide
+/// name-width at once.  Judged: every thread's record arrives whole in one write, names its
+/// thread and its ids - and every thread comes back (CPU-time bound, as in `scenario`).
+fn child_names(args: &Args, out: &mut Out) {
+    const THREADS: usize = 8;
+    const STUCK_CPU_S: u64 = 20;
+    let rounds = args.get_u64("rounds", if cfg!(miri) { 2 } else { 150 }) as usize;
+    let sink = RecSink::new(9);
+    let compact = args.shard % 2 == 1;
+    let dispatch = if compact {
+        Dispatch::new(tracing_subscriber::fmt().compact().with_ansi(false).without_time().with_thread_names(true).with_writer(sink.clone()).finish())
+    } else {
+        Dispatch::new(tracing_subscriber::fmt().with_ansi(false).without_time().with_thread_names(true).with_writer(sink.clone()).finish())
+    };
+    out.set("names_formats", if compact { "compact" } else { "full" });
+    let base = 24 + (args.shard as usize % 5) * 3;
+    for round in 0..rounds {
+        let ready = Arc::new(std::sync::atomic::AtomicUsize::new(0));
+        let go = Arc::new(std::sync::atomic::AtomicBool::new(false));
+        let procs: Arc<Mutex<Vec<Option<std::path::PathBuf>>>> = Arc::new(Mutex::new(vec![None; THREADS]));
+        let mut names = vec![];
+        let mut hs = vec![];
+        for idx in 0..THREADS {
+            let mut name = format!("n{round}-{idx}-");
+            while name.len() < base + round * THREADS + idx {
+                name.push('~');
+            }
+            names.push(name.clone());
+            let (d, ready, go, procs) = (dispatch.clone(), ready.clone(), go.clone(), procs.clone());
+            hs.push(
+                std::thread::Builder::new()
+                    .name(name)
+                    .spawn(move || {
+                        if !cfg!(miri) {
+                            procs.lock().unwrap()[idx] = std::fs::read_link("/proc/thread-self").ok().map(|p| std::path::Path::new("/proc").join(p));
+                        }
+                        tracing::dispatch::with_default(&d, || {
+                            set_opctx(idx as u64 + 1, round as u64 + 1);
+                            ready.fetch_add(1, Ordering::SeqCst);
+                            while !go.load(Ordering::Acquire) {
+                                std::hint::spin_loop();
+                            }
+                            tracing::info!(nround = round as u64, nidx = idx as u64, "names");
+                        });
+                    })
+                    .expect("HARNESS: spawn names thread"),
+            );
+        }
+        while ready.load(Ordering::SeqCst) < THREADS {
+            std::thread::yield_now();
+        }
+        go.store(true, Ordering::Release);
+        let t0 = Instant::now();
+        let mut spins = 0u64;
+        while !cfg!(miri) && hs.iter().any(|h| !h.is_finished()) {
+            std::thread::sleep(std::time::Duration::from_micros(if spins < 2000 { 20 } else { 5000 }));
+            spins += 1;
+            if spins % 100 != 0 {
+                continue;
+            }
+            for t in 0..THREADS {
+                if hs[t].is_finished() {
+                    continue;
+                }
+                let path = procs.lock().unwrap()[t].clone();
+                let cpu_ns = path
+                    .and_then(|p| std::fs::read_to_string(p.join("schedstat")).ok())
+                    .and_then(|s| s.split_whitespace().next().and_then(|x| x.parse::<u64>().ok()));
+                if cpu_ns.map(|ns| ns > STUCK_CPU_S * 1_000_000_000).unwrap_or(false) {
+                    out.violation(
+                        "an emission never returned: a thread formatting one event with thread names on consumed its CPU-time bound without finishing",
+                        json!({"part": "names", "round": round, "format": if compact { "compact" } else { "full" }, "thread": names[t].clone(),
+                               "thread_cpu_seconds": cpu_ns.unwrap() / 1_000_000_000, "threads_per_round": THREADS,
+                               "records_of_this_round_written": sink.take().iter().filter(|r| matches!(r.kind, RecKind::Write(_))).count()}),
+                    );
+                    out.emit();
+                    std::process::exit(0);
+                }
+            }
+            if t0.elapsed().as_secs() > 300 * run::slow_factor() {
+                out.inconclusive(format!("names round {round} did not finish in 300 s (watchdog)"));
+                out.emit();
+                std::process::exit(0);
+            }
+        }
+        for h in hs {
+            h.join().expect("HARNESS: names thread died");
+        }
+        let recs = sink.take();
+        out.count("names_rounds", 1);
+        for idx in 0..THREADS {
+            let writes: Vec<&Vec<u8>> = recs.iter().filter(|r| r.th == idx as u64 + 1).filter_map(|r| if let RecKind::Write(b) = &r.kind { Some(b) } else { None }).collect();
+            out.evals += 1;
+            out.count("names_records_judged", 1);
+            let problem = if writes.len() != 1 {
+                Some(format!("{} write calls for one event", writes.len()))
+            } else {
+                let text = String::from_utf8_lossy(writes[0]).to_string();
+                if !text.ends_with('\n') || text.matches('\n').count() != 1 {
+                    Some(format!("the buffer is not one newline-terminated line: {text:?}"))
+                } else if !text.contains(&names[idx]) {
+                    Some(format!("the record does not name its thread {:?}: {text:?}", names[idx]))
+                } else if !text.contains(&format!("nround={round}")) || !text.contains(&format!("nidx={idx}")) {
+                    Some(format!("the record lacks its fields nround={round} nidx={idx}: {text:?}"))
+                } else {
+                    None
+                }
+            };
+            if let Some(pr) = problem {
+                out.violation(
+                    "a record of an event formatted concurrently with thread names on is not one whole line naming its thread and fields",
+                    json!({"part": "names", "round": round, "thread": names[idx].clone(), "problem": pr}),
+                );
+                return;
+            }
+        }
+        out.distinct_str(&format!("names|{compact}|{}", (base + round * THREADS) / 64));
     }
 }
 
